@@ -36,16 +36,42 @@ Fixpoint outs_eq (key : event -> Z) (base : Z) (steps : list step) (a b : list o
   | _, _ => base + 9
   end.
 
+(* the deleted contexts may also be the instances of some ENTITIES (per-player instances of an exclusive type with
+   disjoint bindings): same menu, the sub-configuration lacks the entities; projection onto the kept entities *)
+Definition project_ents (ids es : list Z) (o : out) : out :=
+  mkOut (filter (fun e => memz (e_target e) es) (x_pre o)) (filter (fun e => memz (e_target e) es) (x_main o))
+        (canon_events (filter (fun e => memz (e_target e) es) (x_post o)))
+        (filter (fun l => memz (match l with LCond i _ _ _ | LMod i _ _ _ => i end) ids) (x_log o))
+        (filter (fun s => match s with sn _ e _ _ => memz e es end) (x_snaps o))
+        (filter (fun m => match m with mi _ e _ _ => memz e es end) (x_mirror o))
+        (canon_built (filter (fun p => memz (snd p) es) (x_built o)))
+        true true (x_panicked o).
+Definition ids_of_ents (sc : scenario) (es : list Z) : list Z :=
+  flat_map (fun x => if memz (snd (fst x)) es then ids_of_spec (snd x) else []) (s_cfg sc).
+(* steps of the full run that the sub run also has (operations on deleted entities are absent from it) *)
+Definition op_on (es : list Z) (o : op) : bool :=
+  match o with OSpawn e _ | OInsert e _ | ORemove e _ | ODespawn e => memz e es | ORebuild => true end.
+Fixpoint keep_outs (es : list Z) (steps : list step) (outs : list out) : list out :=
+  match steps, outs with
+  | SOp o :: steps', x :: outs' => if op_on es o then x :: keep_outs es steps' outs' else keep_outs es steps' outs'
+  | _ :: steps', x :: outs' => x :: keep_outs es steps' outs'
+  | _, _ => outs
+  end.
 Definition ok (p : mcase * mtrace_t) : Z :=
   match p with
   | (multi [full; sub; full2], mtrace [trace t1; trace t2; trace t3]) =>
-      let cs := s_menu sub in
-      let acts := actions_of full cs in
-      let ids := ids_of_ctxs full cs in
       (* determinism: the two runs of the full configuration are identical, field by field *)
       let d := outs_eq (fun _ => 0) 20 (s_steps full) t1 t3 in       (* constant key: the stable sort is the identity, exact order *)
       if negb (Z.eqb d 0) then d
-      else outs_eq ev_key 0 (s_steps full) (map (project acts ids cs) t1) (map (project acts ids cs) t2)
+      else if list_eqb Z.eqb (s_menu full) (s_menu sub) then
+        let es := s_ents sub in
+        let ids := ids_of_ents full es in
+        outs_eq ev_key 0 (s_steps sub) (map (project_ents ids es) (keep_outs es (s_steps full) t1)) (map (project_ents ids es) t2)
+      else
+        let cs := s_menu sub in
+        let acts := actions_of full cs in
+        let ids := ids_of_ctxs full cs in
+        outs_eq ev_key 0 (s_steps full) (map (project acts ids cs) t1) (map (project acts ids cs) t2)
   | _ => 30
   end.
 Definition bad_agree := bad agree.
